@@ -772,6 +772,22 @@ QNAME_BAD_LOCAL = _case(_QN_ROOT, _o("Root", a={"qname": "{urn:a}n 1"}, b={"list
 QNAME_ATTR = _case({"classes": [{"name": "Root", "fields": [_f("c", {"opt": "qname"}, NONE, type="Attribute")]}]},
                    _o("Root", c={"qname": "{urn:a}n1"}))
 
+# namespace scopes below a wrapper element: the prefix of a QName / xsi:type value is declared on the
+# wrapped item itself (seeded change C01-wrapper-child-parent-nsmap-r6)
+WRAP_QNAME = _case(
+    {"classes": [{"name": "Root", "fields": [
+        _f("title", "str", {"value": ""}, type="Attribute"),
+        _f("refs", {"list": "qname"}, LIST, type="Element", name="ref", wrapper="refs")]}]},
+    _o("Root", title={"str": "demo"}, refs={"list": [{"qname": "{urn:colors}red"}, {"qname": "{urn:shapes}square"}]}))
+WRAP_SUB_NS = _case(
+    {"classes": [_BASE, _sub("Sub", [_EXTRA], namespace="urn:s"),
+                 {"name": "Root", "fields": [_f("c", {"list": {"cls": "Base"}}, LIST, type="Element", wrapper="cs")]}]},
+    _o("Root", c={"list": [_o("Base", z={"str": "a"}), _o("Sub", z=None, extra={"int": 1})]}))
+WRAP_ITEM_QNAME_ATTR = _case(
+    {"classes": [{"name": "Leaf", "fields": [_f("q", {"opt": "qname"}, NONE, type="Attribute"), _Z]},
+                 {"name": "Root", "fields": [_f("c", {"list": {"cls": "Leaf"}}, LIST, type="Element", wrapper="cs")]}]},
+    _o("Root", c={"list": [_o("Leaf", q={"qname": "{urn:q}n1"}, z={"str": "x"}), _o("Leaf", q={"qname": "n2"}, z=None)]}))
+
 # unions of primitives
 _UNION_ROOT = {"classes": [{"name": "Root", "fields": [
     _f("a", {"opt": {"union": ["int", "str"]}}, NONE, type="Element"),
